@@ -17,6 +17,7 @@ import (
 
 	"github.com/trustbloc/sidetree-core-go/pkg/api/operation"
 	"github.com/trustbloc/sidetree-core-go/pkg/api/protocol"
+	"github.com/trustbloc/sidetree-core-go/pkg/api/txn"
 	"github.com/trustbloc/sidetree-core-go/pkg/batch"
 
 	"verifharness/hx"
@@ -443,16 +444,18 @@ func checkC16(c *hx.Ctx) {
 	c.Floor("batches_version_0", 10)
 	c.Floor("batches_version_100", 10)
 	c.Floor("real_handler_runs", 10)
+	c.Floor("real_handler_batches_read_back", 50)
 }
 
 // ---------------------------------------------------------------------------------------------
 // real handler slice: real txnprovider.OperationHandler + MemCAS with write faults, client-built operations
 
 type recRealHandler struct {
-	inner protocol.OperationHandler
-	log   *wlog
-	yield yieldFn
-	ver   uint64
+	inner    protocol.OperationHandler
+	log      *wlog
+	yield    yieldFn
+	ver      uint64
+	included map[string][]string // anchor string -> ids of the operations included in that batch
 }
 
 func (h *recRealHandler) PrepareTxnFiles(ops []*operation.QueuedOperation) (*protocol.AnchoringInfo, error) {
@@ -483,6 +486,9 @@ func (h *recRealHandler) PrepareTxnFiles(ops []*operation.QueuedOperation) (*pro
 		}
 	}
 	h.log.add(wev{Kind: "prepare.ret", IDs: inc, Extra: strings.Join(add, ",") + "|" + strings.Join(exp, ","), Ver: h.ver})
+	if h.included != nil {
+		h.included[info.AnchorString] = inc
+	}
 	return info, nil
 }
 
@@ -491,7 +497,7 @@ func realHandlerSlice(c *hx.Ctx) {
 	p := c13Proto(ref.SHA256)
 	p.MaxOperationCount = 3
 	bp := batchPool(r, ref.SHA256, 5, false)
-	nRuns := c.N(40, 1500)
+	nRuns := c.N(150, 3000)
 	for run := 0; run < nRuns; run++ {
 		if c.Violations() > 8 {
 			return
@@ -527,7 +533,8 @@ func realHandlerSlice(c *hx.Ctx) {
 			return nil
 		}
 		v := hx.NewVersion(p, hx.VersionOpts{CAS: cas})
-		pc := hx.NewClient(&handlerVersion{p, &recRealHandler{inner: v.Handler, log: l, yield: yield, ver: p.GenesisTime}})
+		included := map[string][]string{}
+		pc := hx.NewClient(&handlerVersion{p, &recRealHandler{inner: v.Handler, log: l, yield: yield, ver: p.GenesisTime, included: included}})
 		w, err := batch.New(hx.Namespace, &writerCtx{pc: pc, a: anchor, q: q})
 		if err != nil {
 			c.Inconclusive("batch.New: %v", err)
@@ -568,6 +575,7 @@ func realHandlerSlice(c *hx.Ctx) {
 				l.add(wev{Kind: "step.ret"})
 			}
 		}
+		failAtWas := failAt
 		failAt, anchorFail = 0, 0
 		for k := 0; k <= n+1; k++ {
 			l.add(wev{Kind: "step.call", Force: true})
@@ -577,6 +585,39 @@ func realHandlerSlice(c *hx.Ctx) {
 		if problems := checkWriterLog(l.evs, ops, accepted, int(p.MaxOperationCount), true); len(problems) > 0 {
 			c.Violation("C16 (real OperationHandler) "+strings.Join(problems, "; ")+fmt.Sprintf(" :: ops=%v cas writes=%d", descr, writes), map[string]interface{}{"ops": descr, "log": logStrings(l.evs)})
 			return
+		}
+		// "successfully anchored" also means readable: every anchored batch must read back through the real provider as exactly
+		// the operations the handler reported as included
+		for _, anchorStr := range anchor.Seen {
+			got, err := v.Provider.GetTxnOperations(&txn.SidetreeTxn{AnchorString: anchorStr, Namespace: hx.Namespace, TransactionTime: 1, ProtocolVersion: p.GenesisTime})
+			if err != nil {
+				c.Violation(fmt.Sprintf("C16 (real OperationHandler) an anchored batch cannot be read back: %v :: ops=%v, CAS write failure injected at write %d", err, descr, failAtWas),
+					map[string]interface{}{"ops": descr, "anchor": anchorStr, "log": logStrings(l.evs)})
+				return
+			}
+			want := included[anchorStr]
+			gotIDs := map[string]bool{}
+			for _, o := range got {
+				for _, ops5 := range bp {
+					for _, b := range ops5 {
+						if b.Suffix == o.UniqueSuffix && canonReq(b.Req) == canonReq(o.OperationRequest) {
+							gotIDs[b.ID] = true
+						}
+					}
+				}
+			}
+			if len(got) != len(want) || len(gotIDs) != len(want) {
+				c.Violation(fmt.Sprintf("C16 (real OperationHandler) anchored batch %s reads back %d operations (%d recognised), the handler included %v", anchorStr, len(got), len(gotIDs), want),
+					map[string]interface{}{"ops": descr, "anchor": anchorStr})
+				return
+			}
+			for _, id := range want {
+				if !gotIDs[id] {
+					c.Violation(fmt.Sprintf("C16 (real OperationHandler) operation %s was reported as included in batch %s but does not read back", id, anchorStr), map[string]interface{}{"ops": descr})
+					return
+				}
+			}
+			c.Count("real_handler_batches_read_back")
 		}
 		c.Count("real_handler_runs")
 		c.Distinct("real|" + strings.Join(descr, ",") + fmt.Sprint(failAt, anchorFail, run))
